@@ -11,6 +11,8 @@ pub enum Edge {
     Arr(usize),
     /// a zero-length array of the target: still "contains by value" for the purposes of the statement
     Arr0(usize),
+    /// the same in an unnamed field (`_: [T; 0]`), which leaves no trace in the output
+    Arr0Anon(usize),
     Base(usize),
     Ptr(usize),
 }
@@ -19,11 +21,11 @@ impl Edge {
     pub fn target(&self) -> Option<usize> {
         match self {
             Edge::Builtin => None,
-            Edge::Val(t) | Edge::Arr(t) | Edge::Arr0(t) | Edge::Base(t) | Edge::Ptr(t) => Some(*t),
+            Edge::Val(t) | Edge::Arr(t) | Edge::Arr0(t) | Edge::Arr0Anon(t) | Edge::Base(t) | Edge::Ptr(t) => Some(*t),
         }
     }
     pub fn by_value(&self) -> bool {
-        matches!(self, Edge::Val(_) | Edge::Arr(_) | Edge::Arr0(_) | Edge::Base(_))
+        matches!(self, Edge::Val(_) | Edge::Arr(_) | Edge::Arr0(_) | Edge::Arr0Anon(_) | Edge::Base(_))
     }
 }
 
@@ -55,6 +57,7 @@ pub fn all_edges(n: usize) -> Vec<Edge> {
         v.push(Edge::Val(t));
         v.push(Edge::Arr(t));
         v.push(Edge::Arr0(t));
+        v.push(Edge::Arr0Anon(t));
         v.push(Edge::Base(t));
         v.push(Edge::Ptr(t));
     }
@@ -89,6 +92,11 @@ pub fn assignments(n: usize, max_mods: usize) -> Vec<Vec<usize>> {
 }
 
 pub fn build_case(n: usize, edges: &[Vec<Edge>], assign: &[usize], decl_order: &[usize], family: &'static str) -> GraphCase {
+    build_case_ex(n, edges, assign, decl_order, family, false)
+}
+
+/// `by_name`: other modules' types are imported one by one (`use m1::T2;`) instead of `use m1;`
+pub fn build_case_ex(n: usize, edges: &[Vec<Edge>], assign: &[usize], decl_order: &[usize], family: &'static str, by_name: bool) -> GraphCase {
     let n_mods = assign.iter().max().map(|m| m + 1).unwrap_or(1);
     let mut mods: Vec<ModuleS> = (0..n_mods).map(|m| ModuleS::new(&format!("m{m}"))).collect();
     // imports: module-level `use mX;` for every other module a type of this module refers to
@@ -101,13 +109,13 @@ pub fn build_case(n: usize, edges: &[Vec<Edge>], assign: &[usize], decl_order: &
             for e in &edges[t] {
                 if let Some(tt) = e.target() {
                     if tt < n && assign[tt] != m {
-                        needed.insert(assign[tt]);
+                        needed.insert(if by_name { format!("m{}::T{tt}", assign[tt]) } else { format!("m{}", assign[tt]) });
                     }
                 }
             }
         }
         for x in needed {
-            mods[m].items.push(Item::Use(format!("m{x}")));
+            mods[m].items.push(Item::Use(x));
         }
     }
     let mut expect_fields = vec![];
@@ -130,6 +138,13 @@ pub fn build_case(n: usize, edges: &[Vec<Edge>], assign: &[usize], decl_order: &
                 Edge::Val(tt) => (FieldS::new(&fname, MTy::user(&tname(*tt, n))), rust_path(*tt)),
                 Edge::Arr(tt) => (FieldS::new(&fname, MTy::user(&tname(*tt, n)).arr(2)), format!("[{};2]", rust_path(*tt))),
                 Edge::Arr0(tt) => (FieldS::new(&fname, MTy::user(&tname(*tt, n)).arr(0)), format!("[{};0]", rust_path(*tt))),
+                Edge::Arr0Anon(tt) => {
+                    let mut f = FieldS::new(&fname, MTy::user(&tname(*tt, n)).arr(0));
+                    f.name = None;
+                    f.public = false;
+                    ty.fields.push(f);
+                    continue;
+                }
                 Edge::Base(tt) => (FieldS::new(&fname, MTy::user(&tname(*tt, n))).based(), rust_path(*tt)),
                 Edge::Ptr(tt) => (FieldS::new(&fname, MTy::user(&tname(*tt, n)).cptr()), format!("*const {}", rust_path(*tt))),
             };
@@ -178,7 +193,11 @@ pub fn graph_inputs(tier: &str, for_sched: bool) -> Vec<GraphCase> {
     let mut out = vec![];
     let nmax = if for_sched { 3 } else if tier == "thorough" { 4 } else { 3 };
     for n in 1..=nmax {
-        let es = all_edges(n);
+        let mut es = all_edges(n);
+        if for_sched && n == 3 {
+            // the unnamed zero-length array behaves like the named one under every schedule; explored at n <= 2
+            es.retain(|e| !matches!(e, Edge::Arr0Anon(_)));
+        }
         let total = es.len().pow(n as u32);
         let assigns = if for_sched { vec![vec![0; n]] } else { assignments(n, 3) };
         for idx in 0..total {
@@ -194,6 +213,11 @@ pub fn graph_inputs(tier: &str, for_sched: bool) -> Vec<GraphCase> {
             for a in &assigns {
                 let order: Vec<usize> = (0..n).collect();
                 out.push(build_case(n, &edges, a, &order, "one_field"));
+                // the same graph with the other modules' types imported by name
+                let crosses = (0..n).any(|t| edges[t].iter().any(|e| e.target().is_some_and(|tt| tt < n && a[tt] != a[t])));
+                if crosses {
+                    out.push(build_case_ex(n, &edges, a, &order, "one_field_imports_by_name", true));
+                }
             }
         }
     }
